@@ -46,17 +46,17 @@ claim("C20", "E3", "model_checking",
 claim("C11", "E1", "exploration",
       "bounded-exhaustive enumeration of (policy, request) pairs on the real authorizer against an independent policy evaluator",
       "Every single rule, ordered rule pair and user/group layering over a 108-rule alphabet (11 regular-expression shapes incl. alternation, partial anchors, invalid), 3-4 rule policies over a reduced alphabet, and 1-3 services with match conditions, "
-      "crossed with 240 command requests / 8 session requests x 2 scopes, are decided by the real stringy authorizer and by mc/ref/authz.go; any disagreement on grant/deny, returned values or add/replace marking is a violation.",
+      "crossed with 240 command requests / 8 session requests x 2 scopes, are decided by the real stringy authorizer and by mc/ref/authz.go, each on a fresh authorizer and - for every ordered pair (triple) of 26 requests that type the same line with different cmd/argument splits - in sequence on ONE authorizer instance; any disagreement on grant/deny, returned values or add/replace marking is a violation.",
       "regular-expression shapes, argument lists and service shapes outside the alphabet are not explored; whole-string match is taken as ^(?:p)$", "3/C11")
 claim("C12", "E1", "exploration",
       "bounded-exhaustive enumeration of accounting requests (flags, hostile field contents, argument counts, arrival orders) with a record-fidelity and ordering oracle",
       "Every flag octet, every 4-tuple of hostile content tokens in user/port/rem_addr/argument and every arrival order up to the depth through the full server: a SUCCESS reply requires exactly one sink call, before the reply's write, "
-      "whose rendered line JSON-decodes to exactly the request; invalid, unknown-user and no-accounter requests must be answered ERROR.",
+      "whose rendered line JSON-decodes to exactly the request; invalid, unknown-user and no-accounter requests (also as follow-ups on the session id of an acknowledged record) and every truncation / raised length octet of well-formed requests whose announced lengths exceed the body must be answered ERROR.",
       "content tokens are a fixed list of 13 hostile strings; the syslog accounter needs a syslog socket and is not exercised", "3/C12")
 claim("C13", "E1", "exploration",
       "bounded-exhaustive enumeration of (configuration, address) pairs on the real loader lookup and the full server against a reference admission model",
       "All ordered selections of 1-3 of 5 overlapping scopes x 4 deny lists x 3 allow lists, queried with every boundary address of every prefix in IPv4, IPv6 and IPv4-mapped form and a non-TCP address: the real Loader.Get must agree with the model on refuse/serve and on the bound key; "
-      "through the full server a refused connection sees Close with no bytes and no handler, a served one is answered under the bound scope's key and users of other scopes do not exist.",
+      "through the full server a refused connection sees Close with no bytes and no handler, a served one is answered under the bound scope's key, users of other scopes do not exist, and a name configured in every scope with a different credential logs in with the bound scope's credential only; lookups for two addresses in flight at once (controlled scheduler) each get their own verdict.",
       "prefix shapes outside the five scopes and the listed filters are not explored", "3/C13")
 claim("C07", "E3", "model_checking",
       "explicit enumeration of packet histories on the full reference server with a per-request accepted/rejected oracle from the connection-loop model",
@@ -66,7 +66,7 @@ claim("C07", "E3", "model_checking",
 claim("C10", "E3", "model_checking",
       "explicit enumeration of authentication histories on the full reference server against an independent credential oracle",
       "All histories up to depth 3 over ASCII/PAP logins of nine user shapes, CONTINUE packets carrying every user name and password, aborts, fillers and the type-confusable packet, on connections of both scopes, plus the full START product: "
-      "a PASS must be justified by the credential condition evaluated independently (scope membership, authenticator resolution, bcrypt), and every well-formed login that meets it must PASS.",
+      "a PASS must be justified by the credential condition evaluated independently (scope membership, authenticator resolution, bcrypt), every well-formed login that meets it must PASS, an aborted exchange ends in FAIL/ERROR and a session opened by anything but an ASCII login at minor version 0 or a PAP login at minor version 1 never sees PASS.",
       "bcrypt.CompareHashAndPassword is trusted; histories deeper than 3 and more than two session ids are not explored", "3/C10")
 claim("C14", "E3", "model_checking",
       "exhaustive enumeration of (configuration, prefix history, hostile packet mutation) cases in crash-isolating worker subprocesses with write-ahead replay",
@@ -75,24 +75,24 @@ claim("C14", "E3", "model_checking",
       "inputs outside the mutation alphabet and concurrent hostile clients are not explored; proxy framing only in the thorough tier", "3/C14")
 claim("C18", "E3", "model_checking",
       "explicit enumeration of authentication histories with token passwords against a recording logger (information-flow oracle on every log call)",
-      "The C10 histories and the full START product are replayed with every password and shared secret replaced by a unique token; after every packet no watched token may occur in a formatted message, an unobscured record value, a field selected for retention, or a logged reply.",
+      "Four configurations (scopes sharing a keychain entry, unassigned scope, unknown handler/provider types, duplicate user) are loaded and reloaded over each other with the loader's own log calls searched; the C10 histories and the full START product (first sequence number 1, 3, 255) are replayed with every password and shared secret replaced by a unique token; after every packet no watched token may occur in a formatted message, an unobscured record value, a field selected for retention, or a logged reply.",
       "substring search for tokens; the logger seam is the handlers' loggerProvider interface", "3/C18")
 claim("C16", "E1", "exploration",
       "bounded-exhaustive enumeration of load histories on one loader object with a differential oracle (fresh loader) and snapshot immutability",
-      "All sequences up to length 3 (4 thorough) over 13 YAML and 13 JSON documents that drop keys, shrink/reorder lists, remove options or fail to load are fed to one loader; each published value must deep-equal a fresh loader's, earlier published values must stay equal to their snapshots, failed loads must publish nothing, and the full server must behave as the last good document says.",
-      "documents outside the 13 shapes are not explored; the fsnotify watcher is represented by calling Unmarshal on the same object", "3/C16")
+      "All sequences up to length 3 (4 thorough) over 13 YAML and 13 JSON documents that drop keys, shrink/reorder lists, remove options or fail to load are fed to one loader; each published value must deep-equal a fresh loader's, earlier published values must stay equal to their snapshots, failed loads must publish nothing, and the full server must behave as the last good document says; one path rewritten up to 3 (4) times over {document, same-length twin, other document, unparsable text} x {modification time moves on, pinned} and reloaded with Load(path) must publish what a fresh loader publishes for the file as it is.",
+      "documents outside the 13 shapes are not explored; the fsnotify watcher is represented by calling Unmarshal / Load(path) on the same object", "3/C16")
 claim("C09", "E3", "model_checking",
       "exhaustive enumeration of packet interleavings of session scripts (one connection, and two connections sharing a session id) with a differential oracle",
       "Every order-preserving interleaving of every ordered pair of 12 session scripts (and of sets of triples) is executed on the real reference server, multiplexed on one connection and spread over two connections that reuse the same session id; "
-      "each session's transcript of raw reply headers and decoded bodies must equal the transcript of the same script alone on a fresh server. Additionally every pair of 5 scripts runs on two concurrent connection goroutines under the controlled scheduler (engine E2), all schedules with at most 1 (quick) / 2 (thorough) deviations.",
+      "each session's transcript of raw reply headers and decoded bodies must equal the transcript of the same script alone on a fresh server. Additionally every pair of 7 scripts (two of them on a connection of the other scope) runs on two concurrent connection goroutines under the controlled scheduler (engine E2), all schedules with at most 1 (quick) / 2 (thorough) deviations.",
       "scripts are fixed packet lists; more than three simultaneous sessions are not explored", "3/C09")
 claim("C15", "E2", "model_checking",
       "stateless deviation-bounded exploration of goroutine interleavings of the instrumented real code under a controlled scheduler, with a per-schedule happens-before race oracle (Go race detector blinded to the scheduler)",
-      "Eight harnesses (concurrent connections on shared policy data, accept loop with opening/closing/refused connections, lookups concurrent with reloads, a consumer of a published configuration concurrent with the next load, multiplexed sessions, cancellation during serving) run the real sync/goroutine/channel code on a cooperative scheduler; "
+      "Eleven harnesses (concurrent connections on shared policy data, accept loop with opening/closing/refused connections, lookups concurrent with reloads, a consumer of a published configuration concurrent with the next load, multiplexed sessions, cancellation during serving, cancellation racing the next requests of an idle connection with a pending session) run the real sync/goroutine/channel code on a cooperative scheduler; "
       "every schedule with at most 1 (quick) / 2 (thorough) deviations is executed under -race. A race report, a lookup that observes a mixture of two configurations, a published configuration that changes, a deadlock or a wrong reply is a violation.",
       "schedules with more deviations than the bound and code not reached by the harnesses are not covered; ThreadSanitizer treats the prometheus atomics as synchronisation, so statement-level points are inserted where handlers touch shared policy data (types.go TrimSpace, stringy evaluate, loader.updates)", "3/C15")
 claim("C17", "E2", "model_checking",
       "exhaustive enumeration of environment scripts x deviation-bounded schedules of the real Serve loop under a controlled scheduler with scripted listener/connections and virtual time",
-      "Every script of client connects, full/partial packets, read-deadline expiries, cancellation and accept-deadline expiries up to the length bound, followed by a fair closing phase, is run under every schedule within the deviation bound; "
-      "the event log must show a finite future deadline armed before every read, timed-out connections closed and never touched again, and Serve returning only after the listener is closed and every connection goroutine has finished (a state with no runnable thread is a deadlock).",
+      "Every script of client connects, full/partial packets, read-deadline expiries, cancellation and accept-deadline expiries up to the length bound (also against a server in proxy mode), and clock-driven pacing scripts (one byte every ten seconds, never a complete packet), followed by a fair closing phase, is run under every schedule within the deviation bound; "
+      "the event log must show a finite future deadline armed before every read, timed-out connections closed and never touched again, a connection that has not delivered a complete packet by the deadline armed when the wait began closed, and Serve returning only after the listener is closed and every connection goroutine has finished (a state with no runnable thread is a deadlock).",
       "scripts longer than the bound, more than two connections and schedules with more deviations than the bound are not explored; real timers are replaced by a virtual clock", "3/C17")
